@@ -69,7 +69,14 @@ def intersect : List NodeSet → NodeSet
   | [] => []
   | s :: rest => s.filter fun t => rest.all fun r => r.contains t
 
-def sortInts (l : List Int) : List Int := l.mergeSort (fun a b => a ≤ b)
+/-- `sorted(..)` (insertion sort: structurally recursive, so the kernel can evaluate it) -/
+def insertBy {α} (le : α → α → Bool) (a : α) : List α → List α
+  | [] => [a]
+  | b :: l => if le a b then a :: b :: l else b :: insertBy le a l
+
+def sortBy {α} (le : α → α → Bool) (l : List α) : List α := l.foldr (insertBy le) []
+
+def sortInts (l : List Int) : List Int := sortBy (fun a b => a ≤ b) l
 
 /-! ### `_find_nodecolor_candidates` -/
 
@@ -232,7 +239,7 @@ def lcsWith (pick : Cands → List Int → Int) (g sg : Graph) (cands : Cands) (
     let currentSize := (tbm.head?.getD []).length
     let found : List Map :=
       if currentSize ≤ g.keys.length then
-        (tbm.mergeSort fun a b => lexLe (sortInts a) (sortInts b)).flatMap fun nodes =>
+        (sortBy (fun a b => lexLe (sortInts a) (sortInts b)) tbm).flatMap fun nodes =>
           mapNodes pick g sg C nodes.length (pick cands nodes) cands [] nodes
       else []
     if !found.isEmpty || currentSize == 1 then found
